@@ -1,8 +1,13 @@
 import FluteModel.Lemmas.SchedRRAll
+import FluteModel.Lemmas.SchedBencLog
 /-
   C13 - Scheduling: FIFO admission, multiplex bound (strict priority and round robin: see below).
   Interleave window (`open blocks ≤ interleave_blocks`, opened in increasing SBN) is a property of one
-  `BlockEncoder` and is proved with C08 (`BlockEnc.window_bound`); this engine only checks it on the wire.
+  `BlockEncoder`: this model abstracts a transfer to a packet count.  The ABSTRACTION is stated and proved in
+  `Lemmas/SchedBenc.lean` (function `absEnc` from benc's `BlockEnc.Enc`, contract `enc_contract`, both directions
+  over a whole transfer) and the clause is concluded at the end of this file (`interleave_window`,
+  `interleave_window_file_slot`, `transfer_abstraction_contract`) by citing `Props.C08.window_bound`; the engine
+  checks it on the wire (`windowprobe-*`).
 -/
 namespace Flute.Props.C13
 open Flute.Sched
@@ -342,5 +347,161 @@ example : Ahead 3 4 (run (init cfg2 [1]) (hist ++ [.add (obj 3)])).queue ∧
       ((trace cfg2 [1] ((hist ++ [.add (obj 3)]) ++ [.read 5 [], .read 5 []])).length -
         (trace cfg2 [1] (hist ++ [.add (obj 3)])).length)).any (badEv 3) = false := by
   refine ⟨⟨[], [4], by decide, by decide⟩, by decide⟩
+
+/-! ### interleave window: the abstraction `BlockEnc` → `Sched`, and the clause by citation of C08 -/
+
+section Interleave
+open Flute.BlockEnc Flute.BencTrace Flute.BencShape Flute.BencInv Flute.BencBlocks Flute.SchedBenc
+
+/-- **the transfer abstraction of this model is sound** (contract, FEC No-Code = the objects this engine sends; for the
+    other codecs `SchedBenc.enc_contract` + `complete_of_link`).  For every non-empty buffer object `c`, symbol size,
+    block size, window ≥ 1 (`Run … [] s0`: a fresh `BlockEncoder`, closable or not) there is a packet count `N ≥ 1` - the
+    `nSym` this model takes as input - such that in EVERY state `e` the encoder reaches through successful reads with
+    any force flags, `BlockEncoder::read(force)` seen through `absEnc` / `absRes` is exactly `Sched.encRead N`: a packet
+    iff fewer than `N` were returned and the encoder is not stopped; its index = packets returned so far; B iff forced
+    or (closable and packet number `N`); a forced call raises `stopped` (so at most one more packet, with B); the real
+    `read` neither panics nor spins. -/
+theorem transfer_abstraction_contract {P : Params} {c : Flute.Fec.Bytes} {aL aS nL n : Nat} {closable : Bool} {s0 : BlockEnc.Enc}
+    (h0 : Run P c aL aS nL n closable [] s0) (hc : P.codec = Flute.Fec.noCode) :
+    ∃ N, 1 ≤ N ∧ ∀ (tr : List (Bool × Pkt)) (e : BlockEnc.Enc), Reads P s0 tr e → ∀ force,
+      absRes e (BlockEnc.read P e force) = some (Sched.encRead N (absEnc e) force) :=
+  enc_contract_nocode h0 hc
+
+/-- **interleave window** (C13: "within an object at most `interleave_blocks` source blocks are open at once, opened in
+    increasing block number") for every object packet sequence this model can emit for one transfer.  Whatever force
+    flags `fs` the scheduler issues (removal at any packet index) - if its abstract encoder `Sched.encRead N` answers each
+    call with a packet (`absReplay`: indices and B flags `out`, final abstract state `a`), then these packets ARE the
+    packets of a genuine `BlockEncoder` run `tr` with the same flags (`Run`, benc's byte-level model): same indices
+    `0 … |tr|-1`, same B flags, `absEnc e = a`; and in the state `e` it has reached (every prefix of `fs` is such a
+    replay too, `SchedBenc.absReplay_prefix`: so at every point of the transfer) by `Props.C08.window_bound` at most
+    `interleave_blocks` blocks are open, in increasing SBN, all of them cut already; on the wire no packet of a block
+    not yet cut, and the blocks with some but not all of their packets sent are open blocks - at most
+    `interleave_blocks` of them. -/
+theorem interleave_window {P : Params} {c : Flute.Fec.Bytes} {aL aS nL n : Nat} {closable : Bool} {s0 : BlockEnc.Enc}
+    (h0 : Run P c aL aS nL n closable [] s0) (hc : P.codec = Flute.Fec.noCode) :
+    ∃ N, 1 ≤ N ∧ ∀ (fs : List Bool) (out : List (Nat × Bool)) (a : Sched.Enc),
+      absReplay N fs { sent := 0, stopped := false, closable := closable } = some (out, a) →
+      ∃ tr e, Run P c aL aS nL n closable tr e ∧ tr.map (·.1) = fs ∧ absEnc e = a ∧
+        out.map (·.1) = List.range tr.length ∧ out.map (·.2) = (pkts tr).map (·.closeObject) ∧
+        e.blocks.length ≤ P.window ∧ (e.blocks.map (·.sbn)).Pairwise (· < ·) ∧
+        (∀ b, b ∈ e.blocks → b.sbn < e.sbn) ∧
+        (∀ k, e.sbn ≤ k → proj (pkts tr) k = []) ∧
+        (∀ ks : List Nat, ks.Nodup → (∀ k, k ∈ ks → PartiallySent P c aL aS nL (pkts tr) k) → ks.length ≤ P.window) := by
+  obtain ⟨trC, hC, hlast⟩ := complete_nocode h0 hc
+  have hle : Flute.BencPsi.SymLe P.codec := by rw [hc]; exact Flute.BencPsi.noCode_symLe
+  refine ⟨trC.length, List.length_pos_iff.mpr (complete_ne_nil h0 hC), ?_⟩
+  intro fs out a h
+  obtain ⟨tr, e, hrun, g1, g2, g3, g4⟩ := replay_realised h0 hle hC hlast fs out a h
+  obtain ⟨w1, w2, w3, w4, _, w6⟩ := interleave_window_run hrun
+  exact ⟨tr, e, hrun, g1, g2, g3, g4, w1, w2, w3, w4, w6⟩
+
+/-- … and over the whole life of a file slot (benc's `BlockEnc.Session`: transfer count, `closable = is_last_transfer`,
+    carousel, requeue / expiry, forced stop after `remove_object`; any codec accepting the object): after ANY history of
+    `Sender::read`, `remove_object` and clock advances the encoder in the slot is a genuine run, so the window clause holds
+    at every point of every transfer of every history.  (`SchedBenc.glue_decisions` / `glue_start` / `glue_release`: the
+    slot takes the same last-transfer / expiry / forced-stop decisions as this model's `FileDesc`.) -/
+theorem interleave_window_file_slot {c : Flute.Fec.Bytes} {aL aS nL n : Nat} (ops : List Flute.BencSession.Op) {x0 : BlockEnc.Session}
+    (hg : Flute.BencSession.SGood c aL aS nL n x0) {e : BlockEnc.Enc}
+    (he : (Flute.BencSession.srun ops x0).2.enc = some e) :
+    e.blocks.length ≤ (Flute.BencSession.srun ops x0).2.P.window ∧ (e.blocks.map (·.sbn)).Pairwise (· < ·) ∧
+    (∀ b, b ∈ e.blocks → b.sbn < e.sbn) := by
+  obtain ⟨tr, hrun⟩ := session_encoder_is_run ops hg he
+  obtain ⟨w1, w2, w3, _⟩ := interleave_window_run hrun
+  exact ⟨w1, w2, w3⟩
+
+/-- non-vacuity: benc's 5-byte object (E = 2, B = 2, window 2: blocks of 2, 1 symbols) - three unforced calls
+    on the abstract encoder with N = 3 give indices 0, 1, 2 and B on the last one only -/
+example : absReplay 3 [false, false, false] { sent := 0, stopped := false, closable := true } =
+    some ([(0, false), (1, false), (2, true)], { sent := 3, stopped := false, closable := true }) := by decide
+
+/-- non-vacuity of the hypotheses of `interleave_window` / `transfer_abstraction_contract`: benc's 5-byte object is a
+    fresh No-Code `Run` -/
+example : ∃ s0, Run Flute.Props.C08.tinyP Flute.Props.C08.tinyObj 2 1 1 2 true [] s0 ∧
+    Flute.Props.C08.tinyP.codec = Flute.Fec.noCode := by
+  obtain ⟨s0, h0⟩ : ∃ s0, Enc.new Flute.Props.C08.tinyP (.buffer Flute.Props.C08.tinyObj) true = .ok s0 := ⟨_, rfl⟩
+  refine ⟨s0, ⟨rfl, by decide, by decide, rfl, by decide, by decide, rfl, ?_, ⟨s0, h0, Reads.nil _⟩⟩, rfl⟩
+  exact Flute.BencShape.accepts_of_total ⟨rfl, by decide, rfl, by decide,
+    Flute.BencArith.good_of_partition 2 5 2 2 1 1 2 (by decide) (by decide) (by decide) rfl⟩ (fun _ _ _ => rfl)
+
+/-- **interleave window for the composed model** (scheduler model × benc's block-encoder model), at every reachable
+    state of every operation history: every busy object slot of the scheduler whose object has a byte-level
+    description with `f.nSym` packets per transfer (`SchedBenc.Describes`) holds - unless it is the never-started attempt
+    of a faulty source, which sends nothing - the abstraction `absEnc e` of a GENUINE `BlockEncoder` run `e` with
+    `cur.enc.sent` packets returned and `closable = cur.enc.closable`; in that run's state at most `interleave_blocks`
+    source blocks are open, in increasing block number (`Props.C08.window_bound`), every open block has been cut, no
+    packet of a block not yet cut is on the wire and at most `interleave_blocks` blocks are partially sent.
+    (Scheduler side: `Sched.slot_replay_run`, an invariant of `Sched.step` through the frame of `Lemmas/SchedFrame.lean` -
+    a `Cur.enc` is only ever a replay of `encRead f.nSym` from a fresh encoder; encoder side: `SchedBenc.replay_realised`,
+    the converse half of the transfer contract.) -/
+theorem interleave_window_composed (cfg : Cfg) (tbl : List Nat) (ops : List Op) {pc : Nat × Cur}
+    (hpc : pc ∈ heldOf (run (init cfg tbl) ops)) {f : FileDesc}
+    (hf : getF (run (init cfg tbl) ops).objs pc.2.key = some f)
+    {P : Params} {c : Flute.Fec.Bytes} {aL aS nL n : Nat} (hd : Describes P c aL aS nL n f.nSym) :
+    (pc.2.enc.sent = 0 ∧ pc.2.enc.stopped = true) ∨
+    ∃ tr e, Run P c aL aS nL n pc.2.enc.closable tr e ∧ absEnc e = pc.2.enc ∧ tr.length = pc.2.enc.sent ∧
+      e.blocks.length ≤ P.window ∧ (e.blocks.map (·.sbn)).Pairwise (· < ·) ∧
+      (∀ b, b ∈ e.blocks → b.sbn < e.sbn) ∧
+      (∀ k, e.sbn ≤ k → proj (pkts tr) k = []) ∧
+      (∀ ks : List Nat, ks.Nodup → (∀ k, k ∈ ks → PartiallySent P c aL aS nL (pkts tr) k) → ks.length ≤ P.window) :=
+  slot_is_run cfg tbl ops hpc hf hd
+
+/-- **interleave window, for every object packet of every trace.**  Every object packet event `pkt now prio t idx b` in
+    the trace of ANY operation history of this model belongs to an object `f`, and for every byte-level description of
+    that object with `f.nSym` packets per transfer it is a packet a genuine `BlockEncoder` run RETURNS: a run `tr` of
+    `idx` successful reads, a call `read(force)` returning `p` with `p.closeObject = b`, and in the encoder state after
+    it the window clause (`Props.C08.window_bound`): at most `interleave_blocks` blocks open, in increasing block number,
+    all cut already, no packet of a block not yet cut, at most `interleave_blocks` blocks partially sent.
+    (`Sched.log_replay_run`: invariant of `Sched.step` over the log, `Lemmas/SchedBencLog.lean`.) -/
+theorem interleave_window_every_packet (cfg : Cfg) (tbl : List Nat) (ops : List Op) {now prio t idx : Nat} {b : Bool}
+    (hm : Ev.pkt now prio t idx b ∈ (run (init cfg tbl) ops).log) :
+    ∃ f, getF (run (init cfg tbl) ops).objs t = some f ∧
+      ∀ {P : Params} {c : Flute.Fec.Bytes} {aL aS nL n : Nat}, Describes P c aL aS nL n f.nSym →
+        ∃ (cl : Bool) (tr : List (Bool × Pkt)) (e : BlockEnc.Enc) (force : Bool) (p : Pkt) (e' : BlockEnc.Enc),
+          Run P c aL aS nL n cl tr e ∧ tr.length = idx ∧ BlockEnc.read P e force = (.pkt p, e') ∧ p.closeObject = b ∧
+          Run P c aL aS nL n cl (tr ++ [(force, p)]) e' ∧
+          e'.blocks.length ≤ P.window ∧ (e'.blocks.map (·.sbn)).Pairwise (· < ·) ∧
+          (∀ bk, bk ∈ e'.blocks → bk.sbn < e'.sbn) ∧
+          (∀ k, e'.sbn ≤ k → proj (pkts (tr ++ [(force, p)])) k = []) ∧
+          (∀ ks : List Nat, ks.Nodup →
+            (∀ k, k ∈ ks → PartiallySent P c aL aS nL (pkts (tr ++ [(force, p)])) k) → ks.length ≤ P.window) :=
+  pkt_event_is_real cfg tbl ops hm
+
+/-- the hypothesis `Describes` of `interleave_window_composed` is discharged for EVERY FEC No-Code object (the objects
+    this engine sends): from a fresh encoder of a non-empty buffer object there is one packet count `N ≥ 1` - the same
+    whether the encoder is created closable or not (`SchedBenc.complete_closable`: `closable` only changes the B flag) -
+    with `Describes … N`; an object added to the scheduler model with `nSym = N` is thereby covered -/
+theorem nocode_object_described {P : Params} {c : Flute.Fec.Bytes} {aL aS nL n : Nat} {cl0 : Bool} {s0 : BlockEnc.Enc}
+    (h0 : Run P c aL aS nL n cl0 [] s0) (hc : P.codec = Flute.Fec.noCode) :
+    ∃ N, 1 ≤ N ∧ Describes P c aL aS nL n N :=
+  describes_nocode h0 hc
+
+/-- non-vacuity of `Describes`: benc's 5-byte No-Code object (E = 2, B = 2, window 2) has 3 packets per transfer,
+    closable or not, and the closable listing ends with B -/
+example : Describes Flute.Props.C08.tinyP Flute.Props.C08.tinyObj 2 1 1 2 3 := by
+  refine ⟨Flute.BencPsi.noCode_symLe, fun cl => ?_⟩
+  obtain ⟨s0, h0⟩ : ∃ s0, Enc.new Flute.Props.C08.tinyP (.buffer Flute.Props.C08.tinyObj) cl = .ok s0 := ⟨_, rfl⟩
+  have hrun : Run Flute.Props.C08.tinyP Flute.Props.C08.tinyObj 2 1 1 2 cl [] s0 :=
+    ⟨rfl, by decide, by decide, rfl, by decide, by decide, rfl,
+      Flute.BencShape.accepts_of_total ⟨rfl, by decide, rfl, by decide,
+        Flute.BencArith.good_of_partition 2 5 2 2 1 1 2 (by decide) (by decide) (by decide) rfl⟩ (fun _ _ _ => rfl),
+      ⟨s0, h0, Reads.nil _⟩⟩
+  refine ⟨s0, (runPairs Flute.Props.C08.tinyP 10 s0).1, hrun,
+    ⟨⟨s0, (runPairs Flute.Props.C08.tinyP 10 s0).2, h0, reads_runPairs _ 10 s0, ?_⟩, runPairs_unforced _ 10 s0⟩, ?_, ?_⟩
+  · cases h0; cases cl <;> rfl
+  · intro hcl x hx
+    subst hcl
+    have hl : ((runPairs Flute.Props.C08.tinyP 10 s0).1.getLast?.map (fun x => x.2.closeObject)) = some true := by
+      cases h0; rfl
+    rw [hx] at hl
+    simpa using hl
+  · cases h0; cases cl <;> rfl
+
+/-- non-vacuity of `interleave_window_every_packet`: the trace of `hist` has object packet events -/
+example : Ev.pkt 5 0 2 0 false ∈ (run (init cfg2 [1]) hist).log := by decide
+
+/-- non-vacuity of `interleave_window_composed`: in the history `hist` two slots are busy (TOIs 1 and 2) -/
+example : (heldOf (run (init cfg2 [1]) hist)).map (fun pc => pc.2.key) = [1, 2] := by decide
+
+end Interleave
 
 end Flute.Props.C13
